@@ -192,3 +192,12 @@ Print Assumptions C01_checked_writer_agrees.
 Theorem C01_checked_reader_total : forall ls e p, read_srt_lines_c ls e <> Panic p.
 Proof. exact read_srt_lines_c_no_panic. Qed.
 Print Assumptions C01_checked_reader_total.
+
+(* ---- the model's literals are the constants of the Go source (Proofs/ConstTie.v, Gen/Consts.v regenerated from the
+   repository on every run by tools/genconsts): every SubRip keyword, separator, tag and name the model spells out equals the
+   package-level constant, struct tag or bidirectional-map entry of the source, or occurs among the string literals of
+   the function the model transcribes.  A closed boolean computed by the kernel. ---- *)
+From Astisub Require Proofs.ConstTie.
+Theorem C01_constants_from_source : ConstTie.all ConstTie.SrtTie.ties = true.
+Proof. exact ConstTie.SrtTie.consts_from_source. Qed.
+Print Assumptions C01_constants_from_source.
